@@ -504,6 +504,36 @@ theorem packet_step (s : Sys) (evs : List Event) (p : Packet) (incoming : Bool) 
     · intro hp; rw [hpk, hno] at hp; cases hp
 
 
+/-- C19 at one step (routine cache off): a pass that no rule of the packet's direction allows goes through an
+entry whose original direction `d` (that of the rule-allowed packet `o` that created it) is allowed by the
+*current* rules — checked now, or checked for an earlier packet `w` of the flow since the last reload. -/
+theorem packet_revalidated (s : Sys) (evs : List Event) (p : Packet) (incoming : Bool) (h : HostInfo)
+    (hI : Inv s evs) (hpass : (s.packet p incoming h).1 = .pass)
+    (hno : (s.fw.table incoming).matches p incoming h.peer = false) (hp0 : s.ticker.period = 0) :
+    ∃ d o, Witness evs p o ∧ o.incoming = d ∧ o.ruleAllowed = true
+      ∧ ((s.fw.table d).matches p d h.peer = true
+          ∨ ∃ w, Witness evs p w ∧ w.reloads = s.reloads ∧ w.fw = s.fw
+              ∧ (s.fw.table d).matches p d w.host.peer = true) := by
+  obtain ⟨c, hc, hval⟩ := (packet_step s evs p incoming h hI).2.2 hpass hno hp0
+  obtain ⟨o, ho, hoi, hoa⟩ := hI.origin p c hc
+  exact ⟨c.incoming, o, ho, hoi, hoa, hval⟩
+
+/-- `Drop` passes a packet whose tuple has a live entry that is valid under the current rules. -/
+theorem drop_valid_entry (fw : Fw) (ct : Conntrack) (now : Nat) (cache : Cache) (p : Packet)
+    (incoming : Bool) (h : HostInfo) (c : Conn)
+    (hc : aget samePkt ct.conns p = some c) (hlive : now < c.expires)
+    (hv : c.rulesVersion = fw.rulesVersion ∨ (fw.table c.incoming).matches p c.incoming h.peer = true)
+    (haddr : addrCheck fw.routable h.host p = none) :
+    (drop fw ct now cache p incoming h).1 = .pass := by
+  rw [drop_eq]
+  simp only [haddr]
+  by_cases hcache : cache.has p = true
+  · simp [inConns, hcache]
+  · have hcache' : cache.has p = false := by simpa using hcache
+    rcases inConns_entry fw ct now cache p h.peer hcache' with ⟨_, _, _, _, hhit, _⟩ | ⟨_, _, _, hno⟩
+    · simp [hhit]
+    · exact absurd ⟨hlive, hv⟩ (hno c hc)
+
 /-! ### whole histories -/
 
 theorem inv_step (s : Sys) (evs : List Event) (op : Op) (hI : Inv s evs) :
@@ -513,20 +543,57 @@ theorem inv_step (s : Sys) (evs : List Event) (op : Op) (hI : Inv s evs) :
   | packet p incoming h => exact (packet_step s evs p incoming h hI).1
   | reload newFw => exact inv_reload s evs newFw hI
 
+/-- the routine's ticker keeps its period and start through every step. -/
+theorem step_ticker (s : Sys) (op : Op) :
+    (s.step op).1.ticker.period = s.ticker.period ∧ (s.step op).1.ticker.start = s.ticker.start := by
+  cases op with
+  | sleep d => exact ⟨rfl, rfl⟩
+  | reload f =>
+    simp only [Sys.step, Sys.reload]
+    split <;> exact ⟨rfl, rfl⟩
+  | packet p incoming h =>
+    have hc := inConns_cache s.fw s.ct s.now (s.ticker.get s.now).2 p h.peer
+    have hd := drop_eq s.fw s.ct s.now (s.ticker.get s.now).2 p incoming h
+    -- whatever `Drop` returns as cache is the offered cache or that cache with the tuple put in
+    have hcases : (drop s.fw s.ct s.now (s.ticker.get s.now).2 p incoming h).2.2 = (s.ticker.get s.now).2
+        ∨ (drop s.fw s.ct s.now (s.ticker.get s.now).2 p incoming h).2.2 = (s.ticker.get s.now).2.put p := by
+      rw [hd]
+      cases addrCheck s.fw.routable h.host p with
+      | some v => exact Or.inl rfl
+      | none =>
+        simp only
+        have : (inConns s.fw s.ct s.now (s.ticker.get s.now).2 p h.peer).2.2 = (s.ticker.get s.now).2
+            ∨ (inConns s.fw s.ct s.now (s.ticker.get s.now).2 p h.peer).2.2 = (s.ticker.get s.now).2.put p := by
+          rw [hc]; split
+          · exact Or.inr rfl
+          · exact Or.inl rfl
+        split
+        · exact this
+        · split <;> exact this
+    simp only [Sys.step, Sys.packet]
+    rcases hcases with h1 | h1
+    · have := ticker_after s.ticker s.now p false
+      simp only [Bool.false_eq_true, if_false] at this
+      rw [h1]; exact ⟨this.1, this.2.1⟩
+    · have := ticker_after s.ticker s.now p true
+      simp only [if_true] at this
+      rw [h1]; exact ⟨this.1, this.2.1⟩
+
 /-- If every step from a state satisfying the invariant records only events with property `P` (relative to the
 events before them), every event of every history has `P` relative to the events before it. -/
-theorem runFrom_all (P : List Event → Event → Prop)
-    (hstep : ∀ s evs op, Inv s evs → ∀ x, (s.step op).2 = some x → P evs x) :
-    ∀ (ops : List Op) (s : Sys) (evs : List Event), Inv s evs →
+theorem runFrom_all (P : List Event → Event → Prop) (period : Nat)
+    (hstep : ∀ s evs op, Inv s evs → s.ticker.period = period → s.ticker.start = 0 →
+      ∀ x, (s.step op).2 = some x → P evs x) :
+    ∀ (ops : List Op) (s : Sys) (evs : List Event), Inv s evs → s.ticker.period = period → s.ticker.start = 0 →
       (∀ pre e post, evs = pre ++ e :: post → P post e) →
       ∀ pre e post, (Sys.runFrom (s, evs) ops).2 = pre ++ e :: post → P post e := by
   intro ops
   induction ops with
-  | nil => intro s evs _ hgood; simpa [Sys.runFrom] using hgood
+  | nil => intro s evs _ _ _ hgood; simpa [Sys.runFrom] using hgood
   | cons op ops ih =>
-    intro s evs hI hgood
+    intro s evs hI hper hstart hgood
     simp only [Sys.runFrom]
-    apply ih _ _ (inv_step s evs op hI)
+    apply ih _ _ (inv_step s evs op hI) ((step_ticker s op).1.trans hper) ((step_ticker s op).2.trans hstart)
     intro pre e post hsplit
     cases hx : (s.step op).2 with
     | none =>
@@ -540,16 +607,17 @@ theorem runFrom_all (P : List Event → Event → Prop)
         simp only [List.nil_append, List.cons.injEq] at hsplit
         obtain ⟨h1, h2⟩ := hsplit
         subst h1; subst h2
-        exact hstep s evs op hI x hx
+        exact hstep s evs op hI hper hstart x hx
       | cons y pre' =>
         simp only [List.cons_append, List.cons.injEq] at hsplit
         exact hgood pre' e post hsplit.2
 
-theorem run_all (P : List Event → Event → Prop)
-    (hstep : ∀ s evs op, Inv s evs → ∀ x, (s.step op).2 = some x → P evs x)
-    (fw : Fw) (period : Nat) (hv : fw.rulesVersion < 65536) (ops : List Op) :
+theorem run_all (P : List Event → Event → Prop) (period : Nat)
+    (hstep : ∀ s evs op, Inv s evs → s.ticker.period = period → s.ticker.start = 0 →
+      ∀ x, (s.step op).2 = some x → P evs x)
+    (fw : Fw) (hv : fw.rulesVersion < 65536) (ops : List Op) :
     ∀ pre e post, ((Sys.new fw period).run ops).2 = pre ++ e :: post → P post e := by
-  apply runFrom_all P hstep ops _ [] (inv_init fw period hv)
+  apply runFrom_all P period hstep ops _ [] (inv_init fw period hv) rfl rfl
   intro pre e post h
   simp at h
 
